@@ -76,6 +76,12 @@ CHECKS = {
    design="§3 C03"),
 }
 
+CHECKS["C14"] = dict(level="translation_validation", engine="E3 grid",
+   technique="bounded-exhaustive enumeration of intention sets (the programs) translated by the real makeRBACRules; every generated policy evaluated by an independent Envoy RBAC evaluator for every caller identity and request of a near-miss universe and compared with the intention precedence semantics",
+   text="Every set of <=K intentions on one destination (sources web.v1, a+b, * local and web.v1, other from a peer; actions allow, deny, one- and two-element L7 permission lists over path exact/prefix/regex, methods, header present / exact+invert) x TCP/HTTP listener x both default policies x with/without the peer trust bundle is translated by the real makeRBACRules. The resulting envoy RBAC proto is evaluated by an independent evaluator (and/or/not ids, authenticated principal safe-regex, header matchers incl. invert, url_path, and/or/not rules; ALLOW/DENY action) for every caller: mentioned names, a fresh name, regex near-misses (webxv1, aab, ab), the same path under a foreign trust domain, peered callers directly and via mesh gateway + XFCC header, a local service forging the XFCC header; and for HTTP every request in 5 paths x {GET, POST} x {x-test absent, v, w}. Required: RBAC allows <=> most specific matching intention allows (L7: first matching permission decides, none => default; L7 on TCP => deny), else the default.",
+   note="K=2 quick, 3 thorough. JWT requirements and partitions/namespaces (enterprise) are not generated. The evaluator's trust base is Envoy's documented RBAC semantics with Go RE2 full-match for safe_regex. One genuine defect repaired (unescaped names in SPIFFE patterns).",
+   design="§3 C14")
+
 NOT_APPLICABLE = []
 
 def main():
